@@ -1048,93 +1048,14 @@ func (te *TemplateEngine) cloneParagraphProperties(source *ParagraphProperties) 
 		return nil
 	}
 
-	props := &ParagraphProperties{}
-
-	// 复制段落样式
-	if source.ParagraphStyle != nil {
-		props.ParagraphStyle = &ParagraphStyle{
-			Val: source.ParagraphStyle.Val,
-		}
-	}
-
-	// 复制编号属性
-	if source.NumberingProperties != nil {
-		props.NumberingProperties = &NumberingProperties{}
-		if source.NumberingProperties.ILevel != nil {
-			props.NumberingProperties.ILevel = &ILevel{Val: source.NumberingProperties.ILevel.Val}
-		}
-		if source.NumberingProperties.NumID != nil {
-			props.NumberingProperties.NumID = &NumID{Val: source.NumberingProperties.NumID.Val}
-		}
-	}
-
-	// 复制间距
-	if source.Spacing != nil {
-		props.Spacing = &Spacing{
-			Before:   source.Spacing.Before,
-			After:    source.Spacing.After,
-			Line:     source.Spacing.Line,
-			LineRule: source.Spacing.LineRule,
-		}
-	}
-
-	// 复制对齐方式
-	if source.Justification != nil {
-		props.Justification = &Justification{
-			Val: source.Justification.Val,
-		}
-	}
-
-	// 复制缩进
-	if source.Indentation != nil {
-		props.Indentation = &Indentation{
-			FirstLine: source.Indentation.FirstLine,
-			Left:      source.Indentation.Left,
-			Right:     source.Indentation.Right,
-		}
-	}
-
-	// 复制制表符
-	if source.Tabs != nil {
-		props.Tabs = &Tabs{
-			Tabs: make([]TabDef, len(source.Tabs.Tabs)),
-		}
-		for i, tab := range source.Tabs.Tabs {
-			props.Tabs.Tabs[i] = TabDef{
-				Val:    tab.Val,
-				Leader: tab.Leader,
-				Pos:    tab.Pos,
-			}
-		}
-	}
-
-	return props
+	// 复制所有段落属性（包括与下段同页、段前分页、孤行控制、大纲级别、边框、网格对齐等）
+	return deepCopyValue(reflect.ValueOf(source)).Interface().(*ParagraphProperties)
 }
 
 // cloneRun 深度复制文本运行
 func (te *TemplateEngine) cloneRun(source *Run) Run {
-	newRun := Run{
-		Properties: te.cloneRunProperties(source.Properties),
-		Text:       Text{Content: source.Text.Content, Space: source.Text.Space},
-	}
-
-	// 复制图像（如果有）
-	if source.Drawing != nil {
-		// 暂时保持简单复制，图像的深度复制比较复杂
-		newRun.Drawing = source.Drawing
-	}
-
-	// 复制域字符（如果有）
-	if source.FieldChar != nil {
-		newRun.FieldChar = source.FieldChar
-	}
-
-	// 复制指令文本（如果有）
-	if source.InstrText != nil {
-		newRun.InstrText = source.InstrText
-	}
-
-	return newRun
+	// 复制运行的全部内容：属性、文本、分页符、图像、域字符和指令文本
+	return deepCopyValue(reflect.ValueOf(*source)).Interface().(Run)
 }
 
 // cloneRunProperties 深度复制文本运行属性
@@ -1143,80 +1064,7 @@ func (te *TemplateEngine) cloneRunProperties(source *RunProperties) *RunProperti
 		return nil
 	}
 
-	props := &RunProperties{}
-
-	// 复制粗体
-	if source.Bold != nil {
-		props.Bold = &Bold{}
-	}
-
-	// 复制复杂脚本粗体
-	if source.BoldCs != nil {
-		props.BoldCs = &BoldCs{}
-	}
-
-	// 复制斜体
-	if source.Italic != nil {
-		props.Italic = &Italic{}
-	}
-
-	// 复制复杂脚本斜体
-	if source.ItalicCs != nil {
-		props.ItalicCs = &ItalicCs{}
-	}
-
-	// 复制下划线
-	if source.Underline != nil {
-		props.Underline = &Underline{
-			Val: source.Underline.Val,
-		}
-	}
-
-	// 复制删除线
-	if source.Strike != nil {
-		props.Strike = &Strike{}
-	}
-
-	// 复制字体大小
-	if source.FontSize != nil {
-		props.FontSize = &FontSize{
-			Val: source.FontSize.Val,
-		}
-	}
-
-	// 复制复杂脚本字体大小
-	if source.FontSizeCs != nil {
-		props.FontSizeCs = &FontSizeCs{
-			Val: source.FontSizeCs.Val,
-		}
-	}
-
-	// 复制颜色
-	if source.Color != nil {
-		props.Color = &Color{
-			Val: source.Color.Val,
-		}
-	}
-
-	// 复制背景色
-	if source.Highlight != nil {
-		props.Highlight = &Highlight{
-			Val: source.Highlight.Val,
-		}
-	}
-
-	// 完整复制字体族属性，包括所有字体设置
-	if source.FontFamily != nil {
-		props.FontFamily = &FontFamily{
-			ASCII:    source.FontFamily.ASCII,
-			HAnsi:    source.FontFamily.HAnsi,
-			EastAsia: source.FontFamily.EastAsia,
-			CS:       source.FontFamily.CS,
-			Hint:     source.FontFamily.Hint,
-		}
-	}
-
-	return props
+	return deepCopyValue(reflect.ValueOf(source)).Interface().(*RunProperties)
 }
 
 // cloneTable 深度复制表格
